@@ -96,7 +96,7 @@ def gen_case(rng, gen_t, exact):
             edits.append(e)
             m = m + 1 if e[0] in ('append', 'insert') else max(0, m - 1) if e[0] == 'delete' else 0 if e[0] == 'clear' else m
     case = {'mode': rng.choice(['C', 'L']), 'init': init, 'edits': edits, 'form': rng.randrange(6),
-            'save_via': rng.choice(['node', 'doc']), 'exact': exact}
+            'save_via': rng.choice(['node', 'doc']), 'nest': rng.choice([0, 0, 1, 2]), 'exact': exact}
     return case
 
 
@@ -166,7 +166,7 @@ def gen_float_case(rng):
         # one transform alone, wide magnitudes
         t = gen_float_transform(rng)
         return {'mode': rng.choice(['C', 'L']), 'init': [t], 'edits': [], 'form': rng.randrange(6),
-                'save_via': 'node', 'exact': False}
+                'save_via': 'node', 'nest': 0, 'exact': False}
     return gen_case(rng, lambda r: gen_float_transform(r, tame=True), False)
 
 
@@ -321,19 +321,22 @@ def run(ctx):
                    'explained_by_known': False} for i in bad[:20]]
     # distribution
     kinds, modes, seen = {}, {}, set()
+    nests = {}
     edited = 0
     for c in cases:
         for t in c['init']:
             kinds[t[0]] = kinds.get(t[0], 0) + 1
         modes[c['mode']] = modes.get(c['mode'], 0) + 1
         edited += 1 if c['edits'] else 0
+        nests[str(c.get('nest', 0))] = nests.get(str(c.get('nest', 0)), 0) + 1
         if len(c['init']) + len(c['edits']) >= 2 or (c['init'] and c['init'][0][0] in ('rotate', 'lookat', 'matrix')):
             seen.add(core.canon_hash([c['mode'], c['init'], c['edits']]))
     corr = {
         'evaluations': len(cases),
         'distinct_nontrivial': len(seen),
         'rule': 'integer-exact cases (translate/scale/matrix with small integers, rotations by multiples of 90 degrees about '
-                '+-x/y/z, lookat with axis-aligned view and integer up) are compared with the Coq model: node.matrix as '
+                '+-x/y/z, lookat with axis-aligned view and integer up; the node is a scene root, a child of one, or a '
+                'library node instantiated in the scene) are compared with the Coq model: node.matrix as '
                 'constructed or loaded from generated XML, every transform matrix after an edit history, node.matrix after '
                 'save(), node.matrix after write + reload.  Float cases (random unit axes, angles in +-720 degrees, magnitudes '
                 '1e-6..1e6, non-degenerate eye/interest/up, sequences up to 5 plus edits) go to the direct oracle with a '
@@ -342,6 +345,7 @@ def run(ctx):
         'samples': [{'mode': c['mode'], 'init': c['init'], 'edits': c['edits'], 'observed': r['obs']}
                     for c, r in ex_cases[len(corpus_cases()):len(corpus_cases()) + 3]],
         'distribution': {'transforms_by_kind': kinds, 'constructed_vs_loaded': modes, 'cases_with_edit_history': edited,
+                         'node_is_root_child_librarynode': nests,
                          'integer_exact_cases': len(exact), 'float_cases': len(floats),
                          'integer_cases_rejected_by_magnitude_bound': rejected},
         'mismatches': mismatches,
